@@ -29,7 +29,10 @@ func c12Payload(k int) (any, string) {
 func VerifC12Assign() {
 	v, pv := c12Payload(nd.Choice(3))
 	var src, want string
-	switch nd.Choice(5) {
+	switch nd.Choice(6) {
+	case 5: // a variable assigned from forloop keeps the value forloop had then
+		src = "{% for i in (1..3) %}{% if forloop.first %}{% assign f = forloop %}{% assign a = v %}{% endif %}{{ f.index }}{{ f.last }}{{ f.rindex0 }};{% endfor %}|{{ f.index }}{{ f.length }}[{{a}}]"
+		want = "1false2;1false2;1false2;|13[" + pv + "]"
 	case 0:
 		src, want = "{% assign a = v %}[{{a}}]", "["+pv+"]"
 	case 1: // assigned inside if, read after it
